@@ -76,9 +76,14 @@ class MoveMethod:
         self.project = project
         this_pymodule = self.project.get_pymodule(resource)
         pyname = evaluate.eval_location(this_pymodule, offset)
+        if pyname is None:
+            raise exceptions.RefactoringError("Only normal methods can be moved.")
         self.method_name = worder.get_name_at(resource, offset)
         self.pyfunction = pyname.get_object()
-        if self.pyfunction.get_kind() != "method":
+        if (
+            not isinstance(self.pyfunction, pyobjects.PyFunction)
+            or self.pyfunction.get_kind() != "method"
+        ):
             raise exceptions.RefactoringError("Only normal methods can be moved.")
 
     def get_changes(
